@@ -2295,7 +2295,8 @@ def check_listing_limit(ck, R):
         return None
     asm = Assume(fa, atom)
     live = asm.reach()
-    walk_sites = [i for c in fa.calls() if A.call_attr(c) in {w.fi.name for w in walkers[1:]} for i in fa.nodes(c)]
+    wdict = _walkers(ck, fa)
+    walk_sites = [i for c in fa.calls() if _walker_of_call(fa, wdict, c) for i in fa.nodes(c)]
     upfront = bool(walk_sites) and not any(i in live for i in walk_sites)
     ok = upfront or not eq_after_yield
     ck.ob(R, fa.key(None, "limit-zero-yields-nothing"), ok, "a non-positive limit is answered before any entry is yielded" if ok else
